@@ -298,7 +298,8 @@ Lemma sh_record_gen (Phi : decryptor -> Prop) s r hv random sid suite es more v 
      exists d, generate_keys C tbl parts keylog s2 v suite random = Ok (set_dec s2 (Some d)) /\ Phi d) ->
   exists s' d, handle_tls_record C tbl parts keylog s r true = Ok (s', [meta_entry r true]) /\
                ts_can_decrypt s' = true /\ ts_version s' = VSet v /\ ts_client_cc s' = false /\ ts_server_cc s' = false /\
-               ts_decryptor s' = Some d /\ Phi d /\ hsst true s' = hs_step (0, []) (r_body r) /\ hsst false s' = hsst false s.
+               ts_decryptor s' = Some d /\ Phi d /\ hsst true s' = hs_step (0, []) (r_body r) /\ hsst false s' = hsst false s /\
+               ts_hs_client s' = ts_hs_client s /\ ts_hs_server s' = ts_hs_server s.
 Proof.
   intros Hch H1 H2 Hst Hty Hb Lhv Lr Lsid Lsu Hes Hv Hkeys.
   unfold handle_tls_record. rewrite Hty. change (22 =? 22) with true. cbv iota.
@@ -325,14 +326,15 @@ Proof.
   match goal with |- context [generate_keys C tbl parts keylog ?sx v suite random] => set (s2 := sx) end.
   destruct (Hkeys s2 eq_refl eq_refl eq_refl) as (d & Hg & HP).
   rewrite Hg. cbn [rmap bind fst snd app]. exists (set_dec s2 (Some d)), d. split; [reflexivity|].
-  split; [reflexivity|]. split; [reflexivity|]. split; [exact H2|]. split; [exact H1|]. split; [reflexivity|]. split; [exact HP|]. split; [|reflexivity].
+  split; [reflexivity|]. split; [reflexivity|]. split; [exact H2|]. split; [exact H1|]. split; [reflexivity|]. split; [exact HP|]. split; [|repeat split; reflexivity].
   change (hsst true (set_dec s2 (Some d))) with (hsst true s1). unfold s1. rewrite hsst_set_pending. destruct st'; reflexivity.
 Qed.
 
 (* the connection, generic in the class: Inv is the class's session invariant at the start of the ChangeCipherSpec phase *)
 Theorem connection_gen (Phi : decryptor -> Prop) (Inv : tcore -> Prop) (expected : list (bool * option bytes * bool))
   s r hv random sid suite es more v ms_s Fc mid rs :
-  (forall s1 d, ts_can_decrypt s1 = true -> ts_version s1 = VSet v -> ts_client_cc s1 = false -> ts_server_cc s1 = false -> ts_decryptor s1 = Some d -> Phi d -> Inv s1) ->
+  (forall s1 d, ts_can_decrypt s1 = true -> ts_version s1 = VSet v -> ts_client_cc s1 = false -> ts_server_cc s1 = false -> ts_decryptor s1 = Some d -> Phi d ->
+                ts_hs_client s1 = ts_hs_client s -> ts_hs_server s1 = ts_hs_server s -> Inv s1) ->
   (forall s1 s2, core_eq s1 s2 -> Inv s1 -> Inv s2) ->
   (forall s1, Inv s1 -> exists s' out, session_run C tbl parts keylog s1 rs = Ok (s', out) /\ data_entries out = expected) ->
   ts_client_hello_seen s = true -> ts_server_cc s = false -> ts_client_cc s = false -> hsst true s = (0, []) -> hsst false s = (0, []) ->
@@ -348,7 +350,7 @@ Theorem connection_gen (Phi : decryptor -> Prop) (Inv : tcore -> Prop) (expected
 Proof.
   intros Hstart Hcore Hsess Hch H1 H2 Hss Hsc Hty Hb Lhv Lr Lsid Lsu Hes Hwsh Hv Hkeys Hwms Hwfc Hts Htc Hmid Hbs Hbc.
   destruct (sh_record_gen Phi s r hv random sid suite es more v Hch H1 H2 Hss Hty Hb Lhv Lr Lsid Lsu Hes Hv Hkeys)
-    as (s1 & d & Hr & J1 & J2 & J3 & J4 & J5 & J6 & Hst1 & Hsc1).
+    as (s1 & d & Hr & J1 & J2 & J3 & J4 & J5 & J6 & Hst1 & Hsc1 & J7 & J8).
   set (Fs := (2, sh_body hv random sid suite es) :: ms_s).
   assert (HwFs : Forall wfm Fs) by (constructor; assumption).
   assert (Hstream : stream Fs = r_body r ++ bodies true mid).
@@ -420,7 +422,7 @@ Proof.
            (fun d => Chacha.class12 d /\ P12 false (client_key k) (client_iv k) (s_tag cs) (length evs) d stc /\ P12 true (server_key k) (server_iv k) (s_tag cs) (length evs) d sts)
            (fun s1 => Chacha.Inv12 (client_key k) (client_iv k) (server_key k) (server_iv k) (s_tag cs) s1 stc sts false false (length evs))
            (flat_map Chacha.app_of evs) s r hv random sid suite es more TLS12 ms_s Fc mid rs); try assumption.
-  - intros s1 d J1 J2 J3 J4 J5 J6. unfold Chacha.Inv12. split; [exact J1|]. split; [exists TLS12; split; [exact J2|discriminate]|]. split; [exact J3|]. split; [exact J4|]. exists d. split; [exact J5|exact J6].
+  - intros s1 d J1 J2 J3 J4 J5 J6 _ _. unfold Chacha.Inv12. split; [exact J1|]. split; [exists TLS12; split; [exact J2|discriminate]|]. split; [exact J3|]. split; [exact J4|]. exists d. split; [exact J5|exact J6].
   - intros s1 s2. apply ChInv12_core.
   - intros s1 HI. destruct (Chacha.tls12_chacha_session C L tbl parts keylog (client_key k) (client_iv k) (server_key k) (server_iv k) version (s_tag cs) Lver Li1 Li2 evs s1 stc sts false false stc' sts' rs HI Hev Hord Hplay)
       as (s' & out & _ & _ & Hrun & Hd & _). exists s', out. split; [exact Hrun|exact Hd].
@@ -442,7 +444,7 @@ Proof.
            (fun d => Qrc4 (client_key k) (server_key k) (digest_size (s_mac cs)) (length evs) d stc sts)
            (fun s1 => InvG (Qrc4 (client_key k) (server_key k) (digest_size (s_mac cs))) s1 stc sts false false (length evs))
            (flat_map (appG (bytes * bytes) fst) evs) s r hv random sid suite es more v ms_s Fc mid rs); try assumption.
-  - intros s1 d J1 J2 J3 J4 J5 J6. unfold InvG. split; [exact J1|]. split; [exists v; split; [exact J2|exact Hv13]|]. split; [exact J3|]. split; [exact J4|]. exists d. split; [exact J5|exact J6].
+  - intros s1 d J1 J2 J3 J4 J5 J6 _ _. unfold InvG. split; [exact J1|]. split; [exists v; split; [exact J2|exact Hv13]|]. split; [exact J3|]. split; [exact J4|]. exists d. split; [exact J5|exact J6].
   - intros s1 s2. apply InvG_core.
   - intros s1 HI. destruct (rc4_session C L tbl parts keylog version (client_key k) (server_key k) (digest_size (s_mac cs)) evs s1 stc sts false false stc' sts' rs HI Hev Hord Hplay)
       as (s' & out & _ & _ & Hrun & Hd & _). exists s', out. split; [exact Hrun|exact Hd].
@@ -465,7 +467,7 @@ Proof.
            (fun d => Qcbce (client_key k) (server_key k) a etm (digest_size (s_mac cs)) (length evs) d stc sts)
            (fun s1 => InvG (Qcbce (client_key k) (server_key k) a etm (digest_size (s_mac cs))) s1 stc sts false false (length evs))
            (flat_map (appG xe xe_content) evs) s r hv random sid suite es more v ms_s Fc mid rs); try assumption.
-  - intros s1 d J1 J2 J3 J4 J5 J6. unfold InvG. split; [exact J1|]. split; [exists v; split; [exact J2|exact Hv13]|]. split; [exact J3|]. split; [exact J4|]. exists d. split; [exact J5|exact J6].
+  - intros s1 d J1 J2 J3 J4 J5 J6 _ _. unfold InvG. split; [exact J1|]. split; [exists v; split; [exact J2|exact Hv13]|]. split; [exact J3|]. split; [exact J4|]. exists d. split; [exact J5|exact J6].
   - intros s1 s2. apply InvG_core.
   - intros s1 HI. destruct (cbc_explicit_session C L tbl parts keylog version (client_key k) (server_key k) a etm (digest_size (s_mac cs)) evs s1 stc sts false false stc' sts' rs HI Hev Hord Hplay)
       as (s' & out & _ & _ & Hrun & Hd & _). exists s', out. split; [exact Hrun|exact Hd].
@@ -489,11 +491,61 @@ Proof.
            (fun d => Qcbcc (client_key k) (server_key k) a etm (digest_size (s_mac cs)) (block_size_of cs) (length evs) d stc sts)
            (fun s1 => InvG (Qcbcc (client_key k) (server_key k) a etm (digest_size (s_mac cs)) (block_size_of cs)) s1 stc sts false false (length evs))
            (flat_map (appG xc xc_content) evs) s r hv random sid suite es more v ms_s Fc mid rs); try assumption.
-  - intros s1 d J1 J2 J3 J4 J5 J6. unfold InvG. split; [exact J1|]. split; [exists v; split; [exact J2|exact Hv13]|]. split; [exact J3|]. split; [exact J4|]. exists d. split; [exact J5|exact J6].
+  - intros s1 d J1 J2 J3 J4 J5 J6 _ _. unfold InvG. split; [exact J1|]. split; [exists v; split; [exact J2|exact Hv13]|]. split; [exact J3|]. split; [exact J4|]. exists d. split; [exact J5|exact J6].
   - intros s1 s2. apply InvG_core.
   - intros s1 HI. destruct (cbc_chained_session C L tbl parts keylog version (client_key k) (server_key k) a etm (digest_size (s_mac cs)) (block_size_of cs) evs s1 stc sts false false stc' sts' rs HI Hev Hord Hplay)
       as (s' & out & _ & _ & Hrun & Hd & _). exists s', out. split; [exact Hrun|exact Hd].
   - intros s2 E1 E2 E3. rewrite <- E1 in Hk. rewrite <- (find_secrets_same s s2 E1) in Hf.
     destruct (keys_installed_cbc_chained C tbl parts keylog s2 v suite random cs a x xs k stc sts (length evs) Hcs Hf Hk Ha Hb Hvv E2 Hm I1 I2) as (d & Hg & Hrest). exists d. split; [exact Hg|]. unfold etm. rewrite <- E3. exact Hrest.
+Qed.
+
+(* ---- TLS 1.3: the ServerHello record, then the connection of C01_tls13_connection ---- *)
+Lemma shown_all_data out l : map shown out = l -> Forall (fun e : bool * option bytes * bool => snd e = false) l -> data_entries out = l.
+Proof.
+  intros <- H. unfold data_entries. induction out as [|e t IH]; [reflexivity|]. cbn [map] in H. inversion H as [|? ? He Ht]. subst.
+  cbn [filter]. unfold shown in He. cbn [snd] in He. rewrite He. cbn [negb map]. f_equal. exact (IH Ht).
+Qed.
+
+Theorem tls13_connection_sh s r hv random sid suite es cs a kl k x xs chk chi shk shi cak cai sak sai version
+        pre_s fb_s pre_c fb_c ps_s ps_c evs st_c st_s stc0 sts0 stN_s rs_s stN_c rs_c stc' sts' rs :
+  hello_premises s r hv random sid suite es [] TLS13 [] [] [] -> ts_hs_client s = [] -> ts_hs_server s = [] ->
+  split_cipher_suite tbl parts (from_be suite) = Some cs -> algo_of cs = Some a -> (a = AESGCM \/ a = AESCCM \/ a = ChaCha20Poly1305) ->
+  s_keylen cs = Some kl -> find_session_secrets keylog s = x :: xs -> dev_tls_13_keys C (x :: xs) kl (s_mac cs) = Ok k ->
+  client_hs_key k = Some chk -> client_hs_iv k = Some chi -> server_hs_key k = Some shk -> server_hs_iv k = Some shi ->
+  client_app_key k = Some cak -> client_app_iv k = Some cai -> server_app_key k = Some sak -> server_app_iv k = Some sai ->
+  8 <= len cai -> 8 <= len sai -> 8 <= len chi -> 8 <= len shi -> len version = 2 -> 0 <= s_tag cs ->
+  ss_seq st_s = 0 -> ss_seq st_c = 0 -> Z.of_nat (length ps_s) <= 2 ^ 64 -> Z.of_nat (length ps_c) <= 2 ^ 64 ->
+  Forall wfm pre_s -> Forall (fun m => fst m <> 20) pre_s -> wfm (20, fb_s) -> Forall (piece_ok (s_tag cs)) ps_s -> ps_s <> [] -> concat (map fst ps_s) = stream (pre_s ++ [(20, fb_s)]) ->
+  Forall wfm pre_c -> Forall (fun m => fst m <> 20) pre_c -> wfm (20, fb_c) -> Forall (piece_ok (s_tag cs)) ps_c -> ps_c <> [] -> concat (map fst ps_c) = stream (pre_c ++ [(20, fb_c)]) ->
+  send_pieces C a version (s_tag cs) shk shi st_s ps_s = Ok (stN_s, rs_s) -> send_pieces C a version (s_tag cs) chk chi st_c ps_c = Ok (stN_c, rs_c) ->
+  ss_seq stc0 = 0 -> ss_seq sts0 = 0 -> Z.of_nat (length evs) <= 2 ^ 64 -> Forall (ev_ok (s_tag cs)) evs ->
+  play C a cak cai sak sai version (s_tag cs) stc0 sts0 evs = Ok (stc', sts', rs) ->
+  exists s' out, session_run C tbl parts keylog s ((true, r) :: [] ++ (map (pair true) rs_s ++ map (pair false) rs_c ++ rs)) = Ok (s', out) /\
+                 data_entries out = map (fun e : ev => let '(srv, c, _) := e in (srv, Some c, false)) evs.
+Proof.
+  intros HP Bc Bs Hcs Ha Haa Hkl Hf Hk K1 K2 K3 K4 K5 K6 K7 K8 L1 L2 L3 L4 Lver Htag Z1 Z2 N1 N2.
+  intros Hws Hns Hfs Hoks Hnes Hcss Hwc Hnc Hfc Hokc Hnec Hccs Es Ec Z3 Z4 Hn Hev Hplay.
+  destruct HP as (Hch & H1 & H2 & Hss & Hsc & Hty & Hb0 & Lhv & Lr & Lsid & Lsu & Hes & Hwsh & Hv & Hwms & Hwfc & Hts & Htc & Hmid & Hbs & Hbc).
+  set (Phi := fun d => class13 a d /\ d_tag_length d = s_tag cs /\
+                       cur_key d true = Some shk /\ cur_iv d true = Some shi /\ cur_seq d true = 0 /\
+                       cur_key d false = Some chk /\ cur_iv d false = Some chi /\ cur_seq d false = 0 /\
+                       switch_ready d true sak sai /\ switch_ready d false cak cai).
+  apply (connection_gen Phi
+           (fun s1 => exists d, Sess a s1 d /\ hs_buf s1 true = [] /\ hs_buf s1 false = [] /\ Phi d)
+           (map (fun e : ev => let '(srv, c, _) := e in (srv, Some c, false)) evs) s r hv random sid suite es [] TLS13 [] [] []); try assumption.
+  - intros s1 d J1 J2 J3 J4 J5 J6 J7 J8. exists d. split; [unfold Sess; destruct J6 as (Jc & _); split; [exact J1|split; [exact J2|split; [exact J5|exact Jc]]]|].
+    split; [unfold hs_buf; rewrite J8; exact Bs|]. split; [unfold hs_buf; rewrite J7; exact Bc|exact J6].
+  - intros s1 s2 (A1&A2&A3&A4&A5&A6&A7&A8&A9&A10&A11) (d & (S1 & S2 & S3 & S4) & B1 & B2 & HPhi). exists d.
+    split; [unfold Sess; split; [congruence|split; [congruence|split; [congruence|exact S4]]]|]. unfold hs_buf in *. split; [congruence|]. split; [congruence|exact HPhi].
+  - intros s1 (d & HS & B1 & B2 & (Pc & Pt & P1 & P2 & P3 & P4 & P5 & P6 & W1 & W2)).
+    assert (Ps : P13 true shk shi (s_tag cs) (length ps_s) d st_s) by (unfold P13; rewrite Z1; repeat split; auto; lia).
+    assert (Pcl : P13 false chk chi (s_tag cs) (length ps_c) d st_c) by (unfold P13; rewrite Z2; repeat split; auto; lia).
+    destruct (tls13_connection C L tbl parts keylog a cak cai sak sai version (s_tag cs) L1 L2 Lver Htag chk chi shk shi pre_s fb_s pre_c fb_c ps_s ps_c evs s1 d st_c st_s stc0 sts0 stN_s rs_s stN_c rs_c stc' sts' rs
+                L3 L4 HS B1 B2 Ps Pcl W1 W2 Hws Hns Hfs Hoks Hnes Hcss Hwc Hnc Hfc Hokc Hnec Hccs Es Ec Z3 Z4 Hn Hev Hplay) as (s' & out & Hrun & Hshown & _).
+    exists s', out. split; [exact Hrun|]. apply shown_all_data; [exact Hshown|].
+    clear. induction evs as [|[[srv c] p] t IH]; constructor; [reflexivity|exact IH].
+  - intros s2 E1 E2 E3. rewrite <- (find_secrets_same s s2 E1) in Hf.
+    destruct (tls13_keys_installed C tbl parts keylog s2 suite random cs a kl k x xs chk chi shk shi cak cai sak sai Hcs Ha Haa Hkl Hf Hk K1 K2 K3 K4 K5 K6 K7 K8) as (d & Hg & Hrest).
+    exists d. split; [exact Hg|exact Hrest].
 Qed.
 End Conn.
